@@ -197,6 +197,9 @@ impl Property for C04 {
     fn enumeration_exhaustive(_tier: Tier) -> Option<String> {
         Some("2 keys x all signature lists of length <=3 over {valid, bit-flipped, mislabelled} x 7 authorised lists x thresholds 0..3".into())
     }
+    fn concurrent() -> bool {
+        true
+    }
     fn check(spec: &Spec, _env: &mut Env) -> Outcome {
         let mut o = Outcome::new();
         let b = build(spec);
